@@ -54,13 +54,15 @@ type Violation struct {
 
 // Result is what a worker (or a replay) reports.
 type Result struct {
-	Counters       map[string]int64 `json:"counters"`
-	Samples        []any            `json:"samples,omitempty"`
-	Violations     []Violation      `json:"violations,omitempty"`
-	ViolationCount int64            `json:"violation_count"`
-	Incomplete     []string         `json:"incomplete,omitempty"`
-	Notes          []string         `json:"notes,omitempty"`
-	Outcomes       map[string]int64 `json:"outcomes,omitempty"` // distinct observed outcomes (bounded)
+	Counters       map[string]int64    `json:"counters"`
+	Samples        []any               `json:"samples,omitempty"`
+	Violations     []Violation         `json:"violations,omitempty"`
+	ViolationCount int64               `json:"violation_count"`
+	Incomplete     []string            `json:"incomplete,omitempty"`
+	Notes          []string            `json:"notes,omitempty"`
+	Outcomes       map[string]int64    `json:"outcomes,omitempty"` // distinct observed outcomes (bounded)
+	KeyCounts      map[string]int64    `json:"key_counts,omitempty"`
+	KeyGrammars    map[string][]string `json:"key_examples,omitempty"`
 }
 
 const maxViolationsKept = 25
@@ -68,7 +70,7 @@ const maxSamples = 6
 
 // NewResult makes an empty result.
 func NewResult() *Result {
-	return &Result{Counters: map[string]int64{}, Outcomes: map[string]int64{}}
+	return &Result{Counters: map[string]int64{}, Outcomes: map[string]int64{}, KeyCounts: map[string]int64{}, KeyGrammars: map[string][]string{}}
 }
 
 // Add increments a counter.
@@ -98,6 +100,10 @@ func (r *Result) Sample(v any) {
 // Violate records a violation.
 func (r *Result) Violate(key, what string, c any) {
 	r.ViolationCount++
+	r.KeyCounts[key]++
+	if len(r.KeyGrammars[key]) < 40 {
+		r.KeyGrammars[key] = append(r.KeyGrammars[key], what)
+	}
 	if len(r.Violations) >= maxViolationsKept {
 		// keep one per distinct key beyond the cap
 		for _, v := range r.Violations {
@@ -146,6 +152,16 @@ func (r *Result) merge(o *Result) {
 		}
 	}
 	r.ViolationCount += o.ViolationCount
+	for k, v := range o.KeyCounts {
+		r.KeyCounts[k] += v
+	}
+	for k, v := range o.KeyGrammars {
+		for _, x := range v {
+			if len(r.KeyGrammars[k]) < 200 {
+				r.KeyGrammars[k] = append(r.KeyGrammars[k], x)
+			}
+		}
+	}
 	r.Violations = append(r.Violations, o.Violations...)
 	for _, s := range o.Incomplete {
 		dup := false
@@ -496,6 +512,13 @@ func writeEvidence(c *Check, tier string, seed int64, m *Result, wall time.Durat
 		cov["outcomes"] = m.Outcomes
 	}
 	cov["worker_processes"] = shards
+	if len(m.KeyCounts) > 0 {
+		cov["violation_keys"] = m.KeyCounts
+	}
+	if os.Getenv("VERIF_DUMP_VIOLATIONS") != "" {
+		b, _ := json.MarshalIndent(m.KeyGrammars, "", " ")
+		_ = os.WriteFile(os.Getenv("VERIF_DUMP_VIOLATIONS"), b, 0o644)
+	}
 	cov["known_finding_cases"] = knownCount
 	if len(replays) > 0 {
 		cov["replays"] = replays
